@@ -671,7 +671,10 @@ def o2(ctx):
     for key, b in ctx.facts.bodies.items():
         if 'std::fmt::' in key:
             continue
+        live = b.live_blocks()
         for bb, t in b.all_calls():
+            if bb not in live:
+                continue  # e.g. the body of a debug_assert!: compiled out of the analysed (release) semantics
             fn = t.get('fn')
             if not fn:
                 continue
@@ -683,7 +686,7 @@ def o2(ctx):
                 if not any('Instant' in a or 'Duration' in a for a in fn['args']):
                     continue
             seen.add((key, kind, t.get('at')))
-        for bi in b.normal_blocks():
+        for bi in sorted(live):
             t = b.blocks[bi]['term']
             if t['k'] == 'assert':
                 seen.add((key, 'assert:' + str(t.get('msg')).split('(')[0], t.get('at')))
